@@ -106,6 +106,9 @@ func (r *DefaultReader) acquireSlow(n int) int {
 	for i := 0; i < maxConsecutiveEmptyReads; i++ {
 		m, err := r.rd.Read(r.buf[len(r.buf):cap(r.buf)])
 		r.buf = r.buf[:len(r.buf)+m]
+		if m > 0 {
+			i = -1 // only consecutive empty reads count
+		}
 		if err != nil {
 			r.err = err
 			if n <= len(r.buf)-r.ri {
@@ -117,6 +120,7 @@ func (r *DefaultReader) acquireSlow(n int) int {
 			return n
 		}
 	}
+	r.err = io.ErrNoProgress
 	return len(r.buf) - r.ri
 }
 
